@@ -25,6 +25,9 @@ Reading guide
   source of its image, for an unmapped name that it is not a target), with `_witness`es outside it.
   `roundtrip_desc` additionally needs the images to be usable inside `L…;` (`validName`: non-empty, no `;`), which every
   checked `ObjClassName` satisfies; `roundtrip_desc_witness` is an unchecked name with a `;`.
+* history independence: `seq_pointwise`, `seq_history_independent`, `seq_prefix_irrelevant` (+ `seq_fresh`, `seq_length`,
+  `seq_append`, `seq_reverse`, `seq_repeat`): the answers of one instance to a sequence of questions are the answers of a
+  fresh instance to every single question (ops `map-seq`, `oracle-seq-history-independent`).
 -/
 
 namespace Thm.C06
@@ -625,6 +628,69 @@ example :
     injOn (classPairs mD 0 1) (jstr "A1") (jstr "A") = true ∧
     (remapperB mD 0 1).bind (fun rf => declares BClass.fields rf (jstr "f", jstr "I") (jstr "A")) = some (jstr "g", jstr "I") ∧
     (remapperB mD 1 0).bind (fun rb => declares BClass.fields rb (jstr "g", jstr "I") (jstr "A1")) = some (jstr "f", jstr "I") := by
+  decide
+
+/-! ## sequences of questions to one instance: answers do not depend on history
+
+These are simple statements about the model — `mapSeq` is written without any state carried from one question to the
+next, because the Rust remappers have none (`&self` methods over immutable tables). Their value is in the tie: the op
+`map-seq` runs a whole list of questions against ONE `remapper_a` / `remapper_b` instance of the implementation and
+compares with `mapSeq`, and `oracle-seq-history-independent` compares, on the implementation alone, the answers of one
+instance to the sequence with the answers of a fresh instance to every single question (the right-hand side of
+`seq_pointwise`, by `seq_fresh`). A remapper that caches in a way that changes answers fails both. -/
+
+/-- the answers of one instance to a sequence of questions are the answers to the single questions -/
+theorem seq_pointwise (i : Instance) (qs : List Query) : mapSeq i qs = qs.map (mapOne i) := by
+  induction qs with
+  | nil => rfl
+  | cons q qs ih => simp [mapSeq, ih]
+
+/-- a fresh instance asked one question -/
+theorem seq_fresh (i : Instance) (q : Query) : mapSeq i [q] = [mapOne i q] := rfl
+
+theorem seq_length (i : Instance) (qs : List Query) : (mapSeq i qs).length = qs.length := by
+  simp [seq_pointwise]
+
+theorem seq_append (i : Instance) (xs ys : List Query) : mapSeq i (xs ++ ys) = mapSeq i xs ++ mapSeq i ys := by
+  simp [seq_pointwise]
+
+/-- **history independence**: whatever was asked before (`pre`) and is asked afterwards (`post`), the answer to `q` is
+the answer a fresh instance gives -/
+theorem seq_history_independent (i : Instance) (pre post : List Query) (q : Query) :
+    (mapSeq i (pre ++ q :: post))[pre.length]? = some (mapOne i q) := by
+  rw [seq_append]
+  have h : pre.length = (mapSeq i pre).length := (seq_length i pre).symm
+  rw [h, List.getElem?_append_right (Nat.le_refl _)]
+  simp [mapSeq]
+
+/-- the same, comparing two histories directly: the answer to `q` does not depend on the prefix before it -/
+theorem seq_prefix_irrelevant (i : Instance) (pre pre' post post' : List Query) (q : Query) :
+    (mapSeq i (pre ++ q :: post))[pre.length]? = (mapSeq i (pre' ++ q :: post'))[pre'.length]? := by
+  rw [seq_history_independent, seq_history_independent]
+
+/-- asking in the opposite order gives the same answers in the opposite order (hit-then-miss = miss-then-hit) -/
+theorem seq_reverse (i : Instance) (qs : List Query) : mapSeq i qs.reverse = (mapSeq i qs).reverse := by
+  simp [seq_pointwise]
+
+/-- asking a question twice gives the same answer twice -/
+theorem seq_repeat (i : Instance) (q : Query) (mid : List Query) :
+    (mapSeq i (q :: mid ++ [q])).head? = (mapSeq i (q :: mid ++ [q])).getLast? := by
+  rw [seq_append, seq_fresh, List.getLast?_concat]
+  rfl
+
+/-- non-vacuity, on the diamond `mD` / `supD` (`B` has no mapping and sits between `D` and `A`): a miss through `B`
+(`B.x:I`, declared nowhere), then hits through the same class (`B.f:I` and `D.f:I`, both found in `A` through `B`), then
+the miss again - every question is answered as if it were the first -/
+example :
+    (instanceOf mD 0 1 supD).map (fun i => mapSeq i
+      [.member true (jstr "B") (jstr "x", jstr "I"), .member true (jstr "B") (jstr "f", jstr "I"),
+       .member true (jstr "D") (jstr "f", jstr "I"), .member true (jstr "B") (jstr "x", jstr "I"),
+       .cls false (jstr "D"), .desc true (jstr "[LA;")]) =
+    some [.member none (some (jstr "x", jstr "I")) (some (jstr "B", jstr "x", jstr "I")),
+          .member (some (jstr "g", jstr "I")) (some (jstr "g", jstr "I")) (some (jstr "B", jstr "g", jstr "I")),
+          .member (some (jstr "g", jstr "I")) (some (jstr "g", jstr "I")) (some (jstr "D1", jstr "g", jstr "I")),
+          .member none (some (jstr "x", jstr "I")) (some (jstr "B", jstr "x", jstr "I")),
+          .cls (some (jstr "D1")) (jstr "D1") (some (jstr "D1")), .desc (some (jstr "[LA1;"))] := by
   decide
 
 end Thm.C06
